@@ -168,6 +168,27 @@ func Enumerate(p *load.Prog, bce map[string]string) (map[*ssa.Function][]*Site, 
 		}
 		sites[fn] = append(sites[fn], NilPhiSites(fn, isNilHelper, nilSafe)...)
 	}
+	// P5 (second form): dereference of the result of a function that can return nil
+	mayNil := MayReturnNil(p.Repo)
+	for _, fn := range p.Repo {
+		if fn.Synthetic != "" {
+			continue
+		}
+		ns := NilCallSites(fn, mayNil, isNilHelper, nilSafe)
+		if os.Getenv("E1_NILDEBUG") != "" && len(ns) > 0 {
+			for _, s := range ns {
+				fmt.Println("NILSITE", fn, s.Shape)
+			}
+		}
+		sites[fn] = append(sites[fn], ns...)
+	}
+	if os.Getenv("E1_NILDEBUG") != "" {
+		n := 0
+		for range mayNil {
+			n++
+		}
+		fmt.Println("MAYNIL functions:", n)
+	}
 	unmatched := 0
 	for k := range bce {
 		if !matched[k] {
